@@ -1149,7 +1149,7 @@ func c15resolve(c *core.Ctx) *c15env {
 	e.getClient = e.pick("lookup of a registered client by id", "getClient",
 		e.methodsOf(e.brokerT, func(g *flow.Func, sig *types.Signature) bool {
 			return sig.Results().Len() == 1 && c15isNamed(sig.Results().At(0).Type(), e.clientT) && sig.Params().Len() == 1 &&
-				types.Identical(sig.Params().At(0).Type().Underlying(), types.Typ[types.String]) && e.mentions(g.Body, e.clientsF)
+				types.Identical(sig.Params().At(0).Type().Underlying(), types.Typ[types.String]) && e.readsClients(g)
 		}))
 	e.findSubs = e.pick("subscribers of a topic (map client id → subscription QoS)", "findSubscribers",
 		e.methodsOf(e.topicMgrT, func(g *flow.Func, sig *types.Signature) bool {
@@ -1570,4 +1570,58 @@ func c15soleImpl(g *flow.Func, m *types.Func) *types.Func {
 	}
 	c15implMap[m] = found
 	return found
+}
+
+// readsClients: g reads the client table itself or through an accessor it calls.
+func (e *c15env) readsClients(g *flow.Func) bool {
+	for _, h := range e.reachSync(g, 1) {
+		if e.mentions(h.Body, e.clientsF) {
+			return true
+		}
+	}
+	return false
+}
+
+// clientLookup recognises a comma-ok lookup in the client table: `v, ok := b.clients[k]`, or the same
+// through an accessor in front of the map (`v, ok := b.lookupClientLocked(k)`, a same-package function
+// returning (*Client, bool) whose body is such a lookup keyed by its parameter). It returns the key
+// expression in g (nil if x is not a lookup).
+func (e *c15env) clientLookup(g *flow.Func, x ast.Expr) ast.Expr {
+	x = ast.Unparen(x)
+	if ix, ok := x.(*ast.IndexExpr); ok && e.selects(ix.X, e.clientsF) {
+		return ix.Index
+	}
+	call, ok := x.(*ast.CallExpr)
+	if !ok {
+		return nil
+	}
+	o, _ := c15callee(g, call)
+	h := e.byObj[o]
+	if h == nil {
+		return nil
+	}
+	sig := e.sig(h)
+	if sig == nil || sig.Results().Len() != 2 || !c15isNamed(sig.Results().At(0).Type(), e.clientT) ||
+		!types.Identical(sig.Results().At(1).Type().Underlying(), types.Typ[types.Bool]) {
+		return nil
+	}
+	// the accessor's own lookup, keyed by one of its parameters
+	pi := -1
+	ast.Inspect(h.Body, func(n ast.Node) bool {
+		if ix, ok := n.(*ast.IndexExpr); ok && e.selects(ix.X, e.clientsF) {
+			if id, ok := ast.Unparen(ix.Index).(*ast.Ident); ok {
+				if v, ok := c15objOf(h, id).(*types.Var); ok {
+					if i, isRecv, isPar := e.paramIndex(v); isPar && !isRecv {
+						pi = i
+					}
+				}
+			}
+		}
+		return true
+	})
+	args := c15args(g, call)
+	if pi < 0 || pi >= len(args) {
+		return nil
+	}
+	return args[pi]
 }
